@@ -80,6 +80,12 @@ def post(ctx, rc, bpfdir):
              "no_longer_checks": ["corr:kernel test-run and native run disagree"], "first": first})
         print("VIOLATION property=%s replay=%s no-failing-input-found" % (ctx.pid, rp))
         rc = 1
+    bad = [k for k, v in (agg["verifier_ok"] or {}).items() if not v]
+    if bad and agg["kernel_bpf"] and rc == 0:
+        rp = verif.write_replay(ctx, "%d-verifier" % ctx.seed, {"property": ctx.pid, "kind": "broken-obligation",
+             "no_longer_checks": ["corr:the in-kernel verifier no longer accepts %s.o" % ", ".join(bad)]})
+        print("VIOLATION property=%s replay=%s no-failing-input-found" % (ctx.pid, rp))
+        rc = 1
     if not ctx.replay and os.path.exists(ev):
         e = json.load(open(ev))
         e["coverage"].update(agg)
